@@ -44,7 +44,11 @@ func vpH_C07_router() {
 		case 0: // REQ (replaces a subscription of the same id)
 			sub := vpSym1("sub")
 			var f *ReqFilter
-			switch vpChoice("filter", 3) {
+			switch vpChoice("filter", 4) {
+			case 3: // a limit bounds the stored events of a REQ, never the live ones
+				l := vpInt64("limit")
+				vpAssume(l >= 0)
+				f = &ReqFilter{Limit: &l}
 			case 0:
 				f = &ReqFilter{}
 			case 1:
